@@ -440,6 +440,31 @@ func endToEnd(c *mon.Ctx, r *gen.Rand) {
 	if h.PTSDTS == 3 && (!ph.HasDTS() || ph.DTS() != h.DTS) {
 		c.Fail("e2e:pes-dts", fmt.Sprintf("PES DTS read back %d, carried %d", ph.DTS(), h.DTS), wit{Op: "DTS", Value: h.DTS, Got: mon.Hex(hb)})
 	}
+	// the same PES start carried in a transport packet (payload only, behind a zero-length adaptation field, behind
+	// stuffing): the header bytes the packet yields carry the same times
+	if len(hb) <= 184 && r.Chance(2) {
+		pay := append([]byte{}, hb...)
+		switch r.Intn(3) {
+		case 0:
+			pay = append(pay, r.Bytes(183-min(183, len(pay)))...)
+		case 1:
+			pay = append(pay, r.Bytes(184-len(pay))...)
+		}
+		pk := packet.Packet(ref.PayloadPacket(r.PickInt([]int{16 + r.Intn(8000), 0x1fff, 0x1ffe, 32}), r.Intn(16), true, pay))
+		c.Count(fmt.Sprintf("e2e.pes_start_in_a_transport_packet/adaptation_field_control_%d%d", pk[3]>>5&1, pk[3]>>4&1))
+		if pk[3]&0x20 != 0 && pk[4] == 0 {
+			c.Count("e2e.pes_start_behind_a_zero_length_adaptation_field")
+		}
+		got, err := packet.PESHeader(&pk)
+		var ph5 pes.PESHeader
+		if err == nil {
+			ph5, err = pes.NewPESHeader(got)
+		}
+		c.Eval(1)
+		if err != nil || ph5 == nil || !ph5.HasPTS() || ph5.PTS() != h.PTS || (h.PTSDTS == 3 && (!ph5.HasDTS() || ph5.DTS() != h.DTS)) {
+			c.Fail("e2e:pes-times-through-a-transport-packet", fmt.Sprintf("a PES start with PTS %d (DTS %d, PTS_DTS_flags %d) carried in a transport packet (adaptation_field_control %d%d, adaptation_field_length %d): packet.PESHeader + NewPESHeader gave err=%v or other times", h.PTS, h.DTS, h.PTSDTS, pk[3]>>5&1, pk[3]>>4&1, pk[4], err), wit{Op: "packet.PESHeader, NewPESHeader", Value: h.PTS, Got: mon.Hex(pk[:])})
+		}
+	}
 	// the header object is kept and looked at again after many later headers have been decoded
 	{
 		ptsdts, pts, dts := h.PTSDTS, h.PTS, h.DTS
@@ -723,4 +748,11 @@ func run(c *mon.Ctx) {
 	c.Floor("e2e.tight_field_growth_refused", 2000)
 	c.Floor("e2e.pes_header_data_length_200_or_more", 500)
 	c.Stream("end-to-end", c.N(20000, 30000000), func(i int, r *gen.Rand) { endToEnd(c, r) })
+}
+
+func min(a, b int) int {
+	if a < b {
+		return a
+	}
+	return b
 }
